@@ -89,6 +89,15 @@ mod imp {
         out
     }
 
+    /// The corpus plus `n` seeded random documents that the frontend accepts (see verif_random.rs), named rnd_<i>.
+    pub fn corpus_with_random(n: usize, salt: u64) -> Vec<Case> {
+        let mut out = corpus();
+        for (i, (d, _)) in crate::verif_random::accepted(n * 2, salt).into_iter().take(n).enumerate() {
+            out.push(Case { name: format!("rnd_{i} {}", d.query), schema_name: "numbers".to_string(), query: d.query, arguments: d.arguments });
+        }
+        out
+    }
+
     pub fn compile(case: &Case) -> Option<Arc<IndexedQuery>> {
         crate::frontend::parse(schema(&case.schema_name), &case.query).ok()
     }
